@@ -7,6 +7,7 @@ from vfw import refs
 EPS = 2.220446049250313e-16
 TOL = 1e-5           # analytic gradients vs Richardson, relative to max(1,|g|)
 TOL_FD = 1e-4        # library forward differences (epsilon = 1e-8), plus a round-off allowance
+TOL_F32 = 1e-4       # evaluation point handed over in single precision: the library may compute in single precision
 H1, H2 = 1e-3, 2.5e-4
 
 
@@ -22,14 +23,20 @@ class Case(object):
     ref_logd  : optional callable x -> independent textbook log-density (up to a constant), differentiated
                 instead ONLY when the object's own logd refuses or is not finite at an interior point (sparse
                 Gaussians without cholmod have no normalised logd; rank-deficient GMRFs report a NaN constant)
+    int_inside / int_outside : lists of (kind, x) INTEGER-VALUED points inside / outside the support; each of them is
+                handed to gradient() in every representation of `reps_for` (float64 array, int64 array, list of
+                python ints, float32 array, python int / float for one-component variables)
     """
 
-    def __init__(self, component, facets, obj, inside, outside=(), fd_targets=None, ref_logd=None):
+    def __init__(self, component, facets, obj, inside, outside=(), fd_targets=None, ref_logd=None,
+                 int_inside=(), int_outside=()):
         self.component = component
         self.facets = dict(facets)
         self.obj = obj
         self.inside = list(inside)
         self.outside = list(outside)
+        self.int_inside = list(int_inside)
+        self.int_outside = list(int_outside)
         self.fd_targets = [obj] if fd_targets is None else list(fd_targets)
         self.ref_logd = ref_logd
 
@@ -83,24 +90,74 @@ def as_vector(g):
     return a
 
 
-def observe(case, kind, x, fd, fd_eps):
+# ------------------------------------------------------------------------------------------
+# representation of the evaluation point (array_like): the SAME integer-valued point in several forms
+# ------------------------------------------------------------------------------------------
+REPS = ("float64", "int64", "list", "float32", "pyint", "pyfloat")
+
+
+def reps_for(dim, fd):
+    """Representations enumerated for an integer-valued point of a dim-component variable.
+    float32 is left out under the finite-difference option: the library's step (1e-8) is below single-precision
+    resolution, so x + step == x there and no derivative can be demanded."""
+    out = ["float64", "int64", "list"]
+    if not fd:
+        out.append("float32")
+    if dim == 1:
+        out += ["pyint", "pyfloat"]
+    return out
+
+
+def represent(x, rep):
+    x = np.array(x, dtype=np.float64, copy=True).ravel()
+    xi = np.rint(x).astype(np.int64)
+    if not np.array_equal(xi.astype(np.float64), x):
+        raise ValueError("not an integer-valued point: %r" % (x,))
+    if rep == "float64":
+        return x
+    if rep == "int64":
+        return xi
+    if rep == "list":
+        return [int(v) for v in xi]
+    if rep == "float32":
+        return x.astype(np.float32)
+    if rep == "pyint":
+        return int(xi[0])
+    if rep == "pyfloat":
+        return float(x[0])
+    raise ValueError(rep)
+
+
+def _given(rep):
+    return "" if rep is None else " [evaluation point given as %s]" % rep
+
+
+def observe(case, kind, x, fd, fd_eps, rep=None, cache=None):
     """Evaluate gradient at x on the real object and classify.  Returns dict(status=..., ...).
 
-    status: 'ok' | 'refused' | 'skip' | 'bad'; for 'bad' cls in {'value','shape','none'}"""
+    status: 'ok' | 'refused' | 'skip' | 'bad'; for 'bad' cls in {'value','shape','none'}
+    rep   : representation in which the (integer-valued) point is handed to gradient(); the reference is always the
+            Richardson derivative of the object's logd at the float64 version of the point
+    cache : dict shared by the representations of one point (the reference is computed once)"""
     x = np.array(x, dtype=float, copy=True)
     try:
-        g = case.obj.gradient(np.array(x, copy=True))
+        g = case.obj.gradient(np.array(x, copy=True) if rep is None else represent(x, rep))
     except Exception as e:
         return {"status": "refused", "why": type(e).__name__}
     a = as_vector(g)
     if a is None:
-        return {"status": "bad", "cls": "none", "msg": "gradient() returned %r instead of raising or returning a vector"
-                % (g,), "x": x}
-    ref, why = reference(case.obj, x)
-    fallback = False
-    if ref is None and case.ref_logd is not None and why.split(":")[0] in ("logd-raises", "logd-nonfinite"):
-        ref, why = reference(_Ref(case.ref_logd), x)
-        fallback = True
+        return {"status": "bad", "cls": "none", "msg": "gradient() returned %r instead of raising or returning a vector%s"
+                % (g, _given(rep)), "x": x}
+    if cache is not None and "ref" in cache:
+        ref, why, fallback = cache["ref"]
+    else:
+        ref, why = reference(case.obj, x)
+        fallback = False
+        if ref is None and case.ref_logd is not None and why.split(":")[0] in ("logd-raises", "logd-nonfinite"):
+            ref, why = reference(_Ref(case.ref_logd), x)
+            fallback = True
+        if cache is not None:
+            cache["ref"] = (ref, why, fallback)
     if ref is None:
         return {"status": "skip", "why": why}
     if fallback and fd:
@@ -108,39 +165,40 @@ def observe(case, kind, x, fd, fd_eps):
     R1 = ref["R1"]
     if a.size != R1.size:
         return {"status": "bad", "cls": "shape", "x": x, "impl": a, "ref": R1,
-                "msg": "gradient has shape %s (size %d) but the evaluated variable has %d components; d logd/dx = %s"
-                % (a.shape, a.size, R1.size, np.array2string(R1, precision=6))}
+                "msg": "gradient has shape %s (size %d) but the evaluated variable has %d components; d logd/dx = %s%s"
+                % (a.shape, a.size, R1.size, np.array2string(R1, precision=6), _given(rep))}
     v = a.ravel()
     if not np.all(np.isfinite(v)):
         return {"status": "bad", "cls": "value", "x": x, "impl": v, "ref": R1,
-                "msg": "gradient is not finite inside the support where logd is finite and differentiable"}
+                "msg": "gradient is not finite inside the support where logd is finite and differentiable" + _given(rep)}
     if fd:
         scale = max(1.0, float(np.max(np.abs(R1))))
         atol = TOL_FD * scale + 100 * EPS * max(1.0, abs(ref["f0"])) / fd_eps
         good = any(float(np.max(np.abs(v - r))) <= atol for r in (R1, ref["R2"]))
     else:
-        good = any(close(v, r, TOL) for r in (R1, ref["R2"], ref["g2"], ref["g4"]))
+        good = any(close(v, r, TOL_F32 if rep == "float32" else TOL) for r in (R1, ref["R2"], ref["g2"], ref["g4"]))
     if good:
         return {"status": "ok", "shape_exact": tuple(a.shape) == tuple(x.shape), "fallback": fallback,
                 "impl": v, "ref": R1}
     return {"status": "bad", "cls": "value", "x": x, "impl": v, "ref": R1,
-            "msg": "gradient %s != d logd/dx %s (central differences h=%g: %s)"
+            "msg": "gradient %s != d logd/dx %s (central differences h=%g: %s)%s"
             % (np.array2string(v, precision=6), np.array2string(R1, precision=6), H1 / 2,
-               np.array2string(ref["g2"], precision=6))}
+               np.array2string(ref["g2"], precision=6), _given(rep))}
 
 
-def observe_outside(case, kind, x):
+def observe_outside(case, kind, x, rep=None):
     x = np.array(x, dtype=float, copy=True)
     try:
-        g = case.obj.gradient(np.array(x, copy=True))
+        g = case.obj.gradient(np.array(x, copy=True) if rep is None else represent(x, rep))
     except Exception as e:
         return {"status": "refused", "why": type(e).__name__}
     a = as_vector(g)
     if a is None:
-        return {"status": "bad", "cls": "none", "msg": "gradient() returned %r outside the support" % (g,), "x": x}
+        return {"status": "bad", "cls": "none", "msg": "gradient() returned %r outside the support%s" % (g, _given(rep)), "x": x}
     if a.size == 0 or np.all(np.isfinite(a)):
         return {"status": "bad", "cls": "finite", "x": x, "impl": a,
-                "msg": "finite gradient %s reported outside the support" % np.array2string(a.ravel(), precision=6)}
+                "msg": "finite gradient %s reported outside the support at %s%s"
+                % (np.array2string(a.ravel(), precision=6), np.array2string(x, precision=6), _given(rep))}
     return {"status": "ok", "allnan": bool(np.all(np.isnan(a)))}
 
 
